@@ -32,7 +32,8 @@ PROPS["C18"] = {
                   "stores, readSomeAt/writeSome/Write/CloseWithError/DataRange/NewReader, Reader.Read/SeekTo/IsValid; every critical "
                   "section under bl.mu is one atomic step, any number of reader threads each idle/running/parked, Broadcast wakes all): "
                   "for EVERY positive capacity, both backends, every total written (any number of wrap-arounds) and every interleaving, "
-                  "the ring invariant (cell q % size holds hist[q] for the last min(w,size) offsets) holds; a completed read returns exactly "
+                  "the ring invariant (cell q % size holds hist[q] for the last min(w,size) offsets) holds; between any two DataRange calls of an open "
+                  "backlog both ends only move forward and the width stays within the capacity (range_monotone); a completed read returns exactly "
                   "hist[o..o+n) with n>=1; the invalid-offset error occurs iff o > w or o + size < w; a read parks iff o = w on an open "
                   "backlog, and nobody stays parked after a write that added bytes or after Close (woken readers get the written bytes / "
                   "the closed error); DataRange is the last min(w,size) bytes; IsValid iff the position is inside it; Write never blocks "
